@@ -55,12 +55,12 @@ func (its *MongoCollections) GetOperations(
 	duid string,
 	from, to uint64,
 ) (model.OpList, []uint64, errors.OrdaError) {
-	f := schema.GetFilter().
-		AddFilterEQ(schema.OperationDocFields.DUID, duid).
-		AddFilterGTE(schema.OperationDocFields.Sseq, from)
+	sseqRange := bson.D{{Key: "$gte", Value: from}}
 	if to != constants.InfinitySseq {
-		f.AddFilterLTE(schema.OperationDocFields.Sseq, to)
+		sseqRange = append(sseqRange, bson.E{Key: "$lte", Value: to})
 	}
+	f := append(schema.GetFilter().AddFilterEQ(schema.OperationDocFields.DUID, duid),
+		bson.E{Key: schema.OperationDocFields.Sseq, Value: sseqRange})
 	opt := options.Find()
 
 	opt.SetSort(bson.D{{
@@ -82,6 +82,21 @@ func (its *MongoCollections) GetOperations(
 		sseqList = append(sseqList, opDoc.Sseq)
 	}
 	return opList, sseqList, nil
+}
+
+// PurgeOperationsAfter deletes the operations of a datatype whose sseq is greater than the given one.
+func (its *MongoCollections) PurgeOperationsAfter(ctx iface.OrdaContext, duid string, sseq uint64) errors.OrdaError {
+	f := schema.GetFilter().
+		AddFilterEQ(schema.OperationDocFields.DUID, duid).
+		AddFilterGTE(schema.OperationDocFields.Sseq, sseq+1)
+	result, err := its.operations.DeleteMany(ctx, f)
+	if err != nil {
+		return errors.ServerDBQuery.New(ctx.L(), err.Error())
+	}
+	if result.DeletedCount > 0 {
+		ctx.L().Warnf("deleted %d uncommitted operations of %s after sseq %d", result.DeletedCount, duid, sseq)
+	}
+	return nil
 }
 
 // PurgeOperations purges operations for the specified datatype.
